@@ -172,6 +172,29 @@ MUTS = {
             )
         )""", """        cls = type(self)
         return hash((cls, tuple([getattr(self, field) for field in cls._FIELDS])))""")],
+ # seeded /verif/seeded/C16-y2: ArgsNamespace.update() treats a given None as "not given"
+ "nsupdate_none_keeps_old": [(T, """        new_fields = self.as_dict()
+        new_fields.update(fields)
+""", """        get = fields.get
+        new_fields = {
+            name: getattr(self, name) if (value := get(name)) is None else value
+            for name in type(self)._FIELDS
+        }
+""")],
+ # own variant: falsy values treated as "not given"
+ "nsupdate_falsy_keeps_old": [(T, """        new_fields = self.as_dict()
+        new_fields.update(fields)
+""", """        new_fields = {
+            name: fields.get(name) or getattr(self, name) for name in type(self)._FIELDS
+        }
+""")],
+ # seeded /verif/seeded/C16-y1: re-association guard only looks at the direct base
+ "reassoc_deep_ok": [(T, """                if base._associated:
+                    raise RenderArgsDataError(""", """                if "_FIELDS" in base.__dict__:  # defines fields => associated
+                    raise RenderArgsDataError("""),
+                     (T, '''                if not fields:
+                    raise RenderArgsDataError(''', '''                if not (fields or base._FIELDS):
+                    raise RenderArgsDataError(''')],
  "nshash_no_cls": [(T, """        return hash(
             (
                 type(self)._RENDER_CLS,
